@@ -1,0 +1,77 @@
+// Verification hooks. Compiled only with `--cfg fastrace_verif`; with the flag off this module
+// does not exist and no call site below is compiled.
+
+//! Scheduling points and observers used by an external verification harness.
+//!
+//! `yield_point` is called right before every ring-buffer operation of the command channel
+//! and at the phase boundaries of a collector cycle. Without a callback installed it returns
+//! immediately.
+
+use std::sync::Arc;
+use std::sync::RwLock;
+use std::sync::atomic::AtomicUsize;
+use std::sync::atomic::Ordering;
+
+pub use crate::collector::global_collector::verif_collector_stats as collector_stats;
+pub use crate::collector::global_collector::verif_install as install;
+pub use crate::collector::global_collector::verif_register_sender as register_sender;
+pub use crate::collector::global_collector::verif_reset as reset;
+pub use crate::collector::global_collector::verif_run_collector_cycle as run_collector_cycle;
+pub use crate::collector::global_collector::CollectorStats;
+pub use crate::collector::id::verif_set_local_id as set_local_id;
+pub use crate::local::local_span_stack::verif_set_stack_capacity as set_stack_capacity;
+
+/// Where the calling thread is about to go.
+#[derive(Clone, Copy, Debug, PartialEq, Eq)]
+pub enum Point {
+    /// `Sender::send` / `Sender::force_send`: about to push to the ring.
+    Push,
+    /// `Sender::drop`: about to push a pending message to the ring.
+    DropPush,
+    /// `Sender::drop`: about to release the producer side of the ring.
+    Abandon,
+    /// `handle_commands`: about to lock the receiver registry and drain it.
+    DrainBegin,
+    /// `Receiver::try_recv`: about to pop from the ring.
+    Pop,
+    /// `Receiver::try_recv`: the pop found the ring empty; about to check for abandonment.
+    Check,
+    /// `handle_commands`: all receivers drained; about to process the batch and report.
+    Process,
+}
+
+type Callback = Arc<dyn Fn(Point) + Send + Sync>;
+
+static CALLBACK: RwLock<Option<Callback>> = RwLock::new(None);
+static RING_CAPACITY: AtomicUsize = AtomicUsize::new(10240);
+static QUEUE_CAPACITY: AtomicUsize = AtomicUsize::new(10240);
+
+pub fn set_callback(callback: Option<Callback>) {
+    *CALLBACK.write().unwrap() = callback;
+}
+
+#[inline]
+pub fn yield_point(point: Point) {
+    let callback = CALLBACK.read().unwrap().clone();
+    if let Some(callback) = callback {
+        callback(point);
+    }
+}
+
+/// Capacity of command rings created from now on.
+pub fn set_ring_capacity(capacity: usize) {
+    RING_CAPACITY.store(capacity, Ordering::SeqCst);
+}
+
+pub fn ring_capacity() -> usize {
+    RING_CAPACITY.load(Ordering::SeqCst)
+}
+
+/// Capacity of the span queues of local-parent scopes opened from now on.
+pub fn set_queue_capacity(capacity: usize) {
+    QUEUE_CAPACITY.store(capacity, Ordering::SeqCst);
+}
+
+pub fn queue_capacity() -> usize {
+    QUEUE_CAPACITY.load(Ordering::SeqCst)
+}
